@@ -14,25 +14,32 @@ run-name: «run-name»
 on:
   push:
     branches:
+      - main-plain
       - «on.push.branches»
     tags:
+      - v0-plain
       - «on.push.tags»
     paths:
+      - 'plain/**'
       - «on.push.paths»
   pull_request:
     types:
       - «on.pull_request.types»
     branches-ignore:
+      - skip-plain
       - «on.pull_request.branches-ignore»
     paths-ignore:
+      - 'docs-plain/**'
       - «on.pull_request.paths-ignore»
   workflow_run:
     workflows:
+      - plain-workflow
       - «on.workflow_run.workflows»
   schedule:
     - cron: «on.schedule.cron»
   repository_dispatch:
     types:
+      - plain-type
       - «on.repository_dispatch.types»
   workflow_dispatch:
     inputs:
@@ -107,6 +114,7 @@ jobs:
       env:
         «jobs.container.env.name»: «jobs.container.env.value»
       ports:
+        - '8080:80'
         - «jobs.container.ports»
       options: «jobs.container.options»
     services:
@@ -118,6 +126,7 @@ jobs:
         env:
           «jobs.services.env.name»: «jobs.services.env.value»
         ports:
+          - '5432:5432'
           - «jobs.services.ports»
         options: «jobs.services.options»
     environment:
